@@ -17,12 +17,12 @@ CLAIMS = {
 
 CLAIMS.update({
     "C11": dict(
-        text="Static, exact: the full role x variant table of send(), the compile-time Sendable impl matrix (from the compiler's impl tables), the blanket dispatch_send evaluated once per packet type with its type parameter bound, and the per-handler status x need_store x offline_publish x QoS state table are extracted from MIR and compared cell by cell with the MQTT role/state tables; refusal paths' write sets are checked to be empty up to id release / undo. Whole statement, exhaustive over the finite matrix.",
+        text="Static, exact: the full role x variant table of send(), the compile-time Sendable impl matrix (from the compiler's impl tables), the blanket dispatch_send evaluated once per packet type with its type parameter bound, and the per-handler status x need_store x offline_publish x QoS state table are extracted from MIR and compared cell by cell with the MQTT role/state tables; refusal paths' write sets are checked to be empty up to id release / undo. Whole statement, exhaustive over the finite matrix. In the v5.0 handshake handlers the persistence input of that table (need_store) is raised only where clean-start is clear or a Session Expiry Interval is decided non-zero.",
         note=TB + "Role atoms are TypeId comparisons / RoleType consts evaluated by the compiler.",
         technique="MIR abstract interpretation: exact decision-table extraction vs transcribed MQTT tables; trait impl table comparison",
         ref="3/C11"),
     "C17": dict(
-        text="Static, exact: the 144-cell role x version x packet-type receive table (gate + dispatch) is extracted from process_recv_packet and compared with the MQTT table; CONNECT/CONNACK handlers are explored with status=Connected at entry (protocol error, no session-field write); version adoption is shown to assign protocol_version and enter the fixed-version handler with no other write, and protocol_version has no other writer (field-equality argument). Whole statement.",
+        text="Static, exact: the 144-cell role x version x packet-type receive table (gate + dispatch) is extracted from process_recv_packet and compared with the MQTT table; CONNECT/CONNACK handlers are explored with status=Connected at entry (protocol error, no session-field write); version adoption is shown to assign protocol_version and enter the fixed-version handler with no other write, and protocol_version has no other writer (field-equality argument). Whole statement. The adoption assignment is the only write of protocol_version on any path of the dispatcher (latched).",
         note=TB + "Behavioural equality after adoption rests on the field-equality argument (behaviour is a function of fields + inputs).",
         technique="MIR abstract interpretation: exact table extraction + who-may-write scan",
         ref="3/C17"),
@@ -69,7 +69,7 @@ CLAIMS.update({
 
 CLAIMS.update({
     "C13": dict(
-        text="Static, structural obligations on all paths: a caller-supplied empty topic is emitted only after a successful send-table lookup; recording a binding is always followed by the emission that carries the topic (no refusal reachable after insert_or_update); automatic substitution uses find_by_topic on the connection's table and only when Connected, an automatically chosen binding is recorded only on emitting paths; receive side looks up or reports TopicAliasInvalid and never delivers on that exit, range check dominates registration, a topic carried with an alias is bound whether or not the packet is delivered; tables are created only in the handshake handlers from a non-zero Topic Alias Maximum. Not decided: LRU order correctness and agreement with an independent receiver model over sequences.",
+        text="Static, structural obligations on all paths: a caller-supplied empty topic is emitted only after a successful send-table lookup; recording a binding is always followed by the emission that carries the topic (no refusal reachable after insert_or_update); automatic substitution uses find_by_topic on the connection's table and only when Connected, an automatically chosen binding is recorded only on emitting paths; receive side looks up or reports TopicAliasInvalid and never delivers on that exit, range check dominates registration, a topic carried with an alias is bound whether or not the packet is delivered; tables are created only in the handshake handlers from a non-zero Topic Alias Maximum. Not decided: LRU order correctness and agreement with an independent receiver model over sequences. The send table's two indexes are updated together, a rebound alias is removed from the old topic's list, and no search in the alias tables assumes an order its writers do not maintain; every accepted receive path goes through the alias step.",
         note=TB,
         technique="MIR abstract interpretation: must-precede / no-refusal-after-binding rules",
         ref="3/C13"),
@@ -105,7 +105,7 @@ CLAIMS.update({
         technique="MIR abstract interpretation: sibling implementations compared per guard valuation; abstract composition serialiser(build-result) with linear entailment",
         ref="3/C02"),
     "C03": dict(
-        text="Static, tables only (exact): every wire constant (packet types, fixed headers incl. reserved flag nibbles, 27 property ids, QoS/retain/payload-format, protocol levels, all reason-code enums both directions with names, MqttError wire range, MqttError->DisconnectReasonCode, success/failure partitions), property data types and Property::parse dispatch, the fixed header stored by each build/parse, PUBLISH flag masks (accessors by mask/shift; every method that assigns the header evaluated on all sixteen PUBLISH header bytes x argument values), per-kind field order by type, and absence of non-big-endian conversions are compared with the transcribed OASIS tables. NOT decided: per-value encodings.",
+        text="Static, tables only (exact): every wire constant (packet types, fixed headers incl. reserved flag nibbles, 27 property ids, QoS/retain/payload-format, protocol levels, all reason-code enums both directions with names, MqttError wire range, MqttError->DisconnectReasonCode, success/failure partitions), property data types and Property::parse dispatch, the fixed header stored by each build/parse, PUBLISH flag masks (accessors by mask/shift; every method that assigns the header evaluated on all sixteen PUBLISH header bytes x argument values), per-kind field order by type, and absence of non-big-endian conversions are compared with the transcribed OASIS tables. NOT decided: per-value encodings. Every builder setter of a defaulted flags byte starts from build()'s default (evaluated on an untouched builder and on one holding the default).",
         note=TB + "Known finding F20 (v3.1.1 PUBACK/PUBREC/PUBREL/PUBCOMP carry an optional reason-code byte the 3.1.1 specification does not define) listed in known_findings.jsonl.",
         technique="exact table extraction (evaluated discriminants, field types, MIR match tables, serialiser order) vs specification tables",
         ref="3/C03"),
